@@ -16,7 +16,8 @@ EXPLANATION = ('The real StringGrader.clean_input / check_response / __call__ ru
                'characters; z3 decides on every path that the cleaned string equals the normalised one character by character (so no other '
                'character is ever dropped or altered) and that the verdict is "equal after normalisation". accept_any / accept_nonempty run with '
                'symbolic min_length / min_words; validation patterns run through a regex shim and, without any length bound, the language the '
-               'code actually tests (pattern captured from its re.match call) is compared with the full-match language of the author\'s pattern.')
+               'code actually tests (pattern captured from its re.match call) is compared with the full-match language of the author\'s pattern.'
+               " Sequences of calls over five grader configurations (what a refusal reports is a function of that grader's own options); the expected string arriving through the call's expect argument with leading/trailing whitespace.")
 ASSUMPTIONS = ['a CRLF pair is one line break (leftmost pairs first), then LFCR pairs, then single tabs/CRs/LFs - the reading under which "line breaks become spaces" is unambiguous', 'case folding: ASCII letters are folded symbolically; case-insensitive configurations range over ASCII plus a listed table of caseless '
                'ranges (Latin-1 punctuation, Arabic digits, general punctuation, CJK symbols and ideographs, emoticons - every Unicode whitespace included); '
                'case-sensitive configurations range over all of Unicode', 'expected strings are concrete', 'lone surrogates excluded']
